@@ -187,6 +187,12 @@ class Unsigned(BitVector):
             rhs = -(rhs % 2**self.width)
 
         else:
+            result_width = max(self.width, target_width or 0)
+
+            if isinstance(rhs, Unsigned) and rhs.width < result_width:
+                # negate at the width of the result, not at the width of the narrower operand
+                rhs = rhs.resize(result_width)
+
             rhs = -rhs
 
         return self.add(rhs, target_width)
